@@ -106,6 +106,18 @@ func aUpdateDeployment(t string, dseq uint64, v string) Action {
 		}}
 }
 
+// aUpdateDeploymentRaw: an update carrying a version of n bytes (only 32 is legal).
+func aUpdateDeploymentRaw(t string, dseq uint64, n int) Action {
+	return Action{Name: fmt.Sprintf("UpdateDeployment(%s,%d,version-of-%d-bytes)", t, dseq, n), Kind: "UpdateDeployment", Signer: t, Tag: tag("owner", t, "dseq", u(dseq)),
+		Msg: func(c *Cast) sdk.Msg {
+			v := make([]byte, n)
+			for i := range v {
+				v[i] = byte(i + 7)
+			}
+			return &dtypes.MsgUpdateDeployment{ID: dtypes.DeploymentID{Owner: c.S(t), DSeq: dseq}, Version: v}
+		}}
+}
+
 func aCloseDeployment(t string, dseq uint64) Action {
 	return Action{Name: fmt.Sprintf("CloseDeployment(%s,%d)", t, dseq), Kind: "CloseDeployment", Signer: t, Tag: tag("owner", t, "dseq", u(dseq)),
 		Msg: func(c *Cast) sdk.Msg {
@@ -251,6 +263,8 @@ func scEscrow() Scenario {
 		aSendToEscrow("B", 1),
 		aDepositDenom("T1", 1, 3, denom2), aCreateBidDenom(bidRef{"T1", 1, 2, 1, "P1"}, 2, 5, denom2),
 	)
+	// lease / bid ids naming the provider in upper-case bech32 (no such record exists: must be refused)
+	al = append(al, aBidOp("CreateLease", bidRef{"T1", 1, 1, 1, "P1^"}), aBidOp("CloseBid", bidRef{"T1", 1, 1, 1, "P1^"}), aBidOp("WithdrawLease", bidRef{"T1", 1, 1, 1, "P1^"}))
 	// negative amounts (a coin decoded from the wire may carry one; sdk.NewCoin would panic, a struct literal does not)
 	neg := func(n int64) sdk.Coin { return sdk.Coin{Denom: denom, Amount: sdk.NewInt(n)} }
 	al = append(al,
@@ -305,7 +319,7 @@ func scLife() Scenario {
 	al = append(al, aCreateBid(bidRef{"T2", 12, 1, 1, "P2"}, 5, 5), aBidOp("CreateLease", bidRef{"T2", 12, 1, 1, "P2"})) // above the maximum (3)
 	al = append(al,
 		aCloseDeployment("T1", 1), aCloseDeployment("T2", 12),
-		aUpdateDeployment("T1", 1, "v2"),
+		aUpdateDeployment("T1", 1, "v2"), aUpdateDeploymentRaw("T1", 1, 64), aUpdateDeploymentRaw("T1", 1, 31),
 		aGroup("CloseGroup", "T1", 1, 1), aGroup("PauseGroup", "T1", 1, 1), aGroup("StartGroup", "T1", 1, 1),
 		aGroup("CloseGroup", "T1", 1, 2), aGroup("PauseGroup", "T1", 1, 2), aGroup("StartGroup", "T1", 1, 2),
 		aGroup("StartGroup", "T2", 12, 1),
@@ -323,6 +337,7 @@ var scenarioTable = map[string]func() Scenario{
 	"S-attr":   scAttr,
 	"S-attr-leased": scAttrLeased,
 	"S-attr-upper":  scAttrUpper,
+	"S-attr-2groups": scAttr2Groups,
 	"S-cert":   scCert(certSerials),
 	"S-collide": scCollide,
 	"S-grid":   scGrid,
